@@ -132,6 +132,12 @@ def content(seed, cid, length):
         return b""
     if cid == "zero":
         return bytes(length)          # all-zero content (creation checks only)
+    if isinstance(cid, str) and cid.startswith(("ztail", "zhead")):
+        # one half non-zero bytes, the other half zero bytes
+        k = (length + 1) // 2
+        body = content(seed, "h:" + cid, k)
+        return body + bytes(length - k) if cid.startswith("ztail") \
+            else bytes(length - k) + body
     if isinstance(cid, str) and cid.startswith("holes"):
         # mostly zero bytes with short data islands that start on 4 KiB page
         # boundaries at every residue modulo the 16 KiB block (written with
